@@ -65,13 +65,12 @@ impl<const BASE: Word> Repr<BASE> {
             self.significand.v() == 0 ==> r == 0,
     { unimplemented!() }
     // `Repr::digits_lb` (f32 under-estimate: floor of a lower bound of log_B|significand|): NOT used by the unchanged
-    // functions under contract; present so that a changed function calling it is judged. ASSUMED: at most digits - 1
-    // (0 for a zero significand).
+    // functions under contract; present so that a changed function calling it is judged. ASSUMED: at most the digit
+    // count (NOT digits - 1: the f32 product can round up to the next integer, e.g. 999999999 in base 10); 0 for zero.
     #[verifier::external_body]
     pub fn digits_lb(&self) -> (r: usize)
         requires BASE >= 2, !(self.significand.v() == 0 && self.exponent != 0)      // assert_finite
         ensures r <= ndigits(BASE as int, self.significand.v()),
-            self.significand.v() != 0 ==> r < ndigits(BASE as int, self.significand.v()),
             self.significand.v() == 0 ==> r == 0,
     { unimplemented!() }
 }
